@@ -76,27 +76,27 @@ _HEXCACHE = {}
 
 
 def _hex_tables():
+    """gradients of the 8 trilinear shape functions at the 27 Simpson points xi in {0, 1/2, 1}^3, times 4 (integers)"""
     if not _HEXCACHE:
         rp = refdom('hex').p.T.astype(int)
         pts = list(itertools.product((0, 1, 2), repeat=3))        # xi = pts/2
         w1 = {0: 1, 1: 4, 2: 1}
         grads = {}
         for q in pts:
-            xi = [Fraction(c, 2) for c in q]
             g = []
             for i in range(8):
-                f = [xi[d] if rp[i][d] == 1 else 1 - xi[d] for d in range(3)]
+                f = [q[d] if rp[i][d] == 1 else 2 - q[d] for d in range(3)]      # 2 * factor
                 df = [1 if rp[i][d] == 1 else -1 for d in range(3)]
-                g.append((df[0] * f[1] * f[2], f[0] * df[1] * f[2], f[0] * f[1] * df[2]))
+                g.append((df[0] * f[1] * f[2], f[0] * df[1] * f[2], f[0] * f[1] * df[2]))   # 4 * gradient
             grads[q] = g
         _HEXCACHE['pts'] = pts
-        _HEXCACHE['w'] = {q: Fraction(w1[q[0]] * w1[q[1]] * w1[q[2]], 216) for q in pts}
+        _HEXCACHE['w'] = {q: w1[q[0]] * w1[q[1]] * w1[q[2]] for q in pts}              # 216 * weight
         _HEXCACHE['grads'] = grads
     return _HEXCACHE
 
 
 def hex_detJ(P):
-    """det of the Jacobian of the trilinear map at the 27 Simpson points (exact)"""
+    """64 * det of the Jacobian of the trilinear map at the 27 Simpson points (exact integers for integer P)"""
     T = _hex_tables()
     out = {}
     for q in T['pts']:
@@ -115,7 +115,7 @@ def measure(kind, P):
         return sum(det2(P[i], P[(i + 1) % 4]) for i in range(4))
     T = _hex_tables()
     dj = hex_detJ(P)
-    return sum(T['w'][q] * dj[q] for q in T['pts'])
+    return Fraction(sum(T['w'][q] * dj[q] for q in T['pts']), 216 * 64)
 
 
 def nondegenerate(kind, P):
